@@ -23,7 +23,9 @@ RULE = ("accept direction: every accepted input of W-TOK (V_full<=3 with/without
         "single needed extension and random subsets removed from the require; look-alike "
         "direction: generated bodies whose require names only a string resembling the needed "
         "extension (comma lists inside one string, padding, affixes, escaped quotes), as a "
-        "single string and inside a list. Before every look-alike and removal parse (and every "
+        "single string and inside a list, and as a str with a lone surrogate inside the name; a "
+        "quarter of the accepted inputs get a second gate walk over the SOURCE octets read by "
+        "the harness's own lexer. Before every look-alike and removal parse (and every "
         "4th other one) all extensions are registered by hand through sievelib.commands (a "
         "require object completed outside any parse). Non-trivial = "
         "accepted input containing at least one extension-bound construct, or a removal case; "
@@ -35,10 +37,12 @@ ASSUMPTIONS = [
 ]
 FLOORS = {
     "quick": {"accepted-with-ext-constructs": 3000, "removal-cases": 5000, "lookalike-cases": 20000,
-              "parses-after-extensions-were-registered-by-hand": 30000,
+              "parses-after-extensions-were-registered-by-hand": 30000, "source-walks": 3000,
+              "lookalike-str-with-lone-surrogate": 1000,
               "constructs-checked": 10000},
     "thorough": {"accepted-with-ext-constructs": 60000, "removal-cases": 100000, "lookalike-cases": 400000,
-                 "parses-after-extensions-were-registered-by-hand": 600000,
+                 "parses-after-extensions-were-registered-by-hand": 600000, "source-walks": 60000,
+                 "lookalike-str-with-lone-surrogate": 20000,
                  "constructs-checked": 200000},
 }
 SHARD_TIMEOUT = {"quick": 600, "thorough": 3000}
@@ -110,6 +114,51 @@ def walk(result, res=None):
     return bad, n[0]
 
 
+def source_walk(data: bytes):
+    """The same gate walk, but over the SOURCE octets as read by the harness's own lexer and
+    generic grammar (nothing taken from the parser's tree): what the script really says.
+    -> list of (construct, extension) | None when the source cannot be read that way"""
+    lr = rsieve.lex(data)
+    if lr.error:
+        return None
+    try:
+        tree = rsieve.parse_generic(lr.toks)
+    except (rsieve.GrammarError, RecursionError):
+        return None
+    loaded = set()
+    bad = []
+
+    def node(c, depth=0):
+        if depth > 600:
+            raise RecursionError
+        if c.name == "require":
+            for a in c.args:
+                raws = a.items if a.kind == "list" else ([a.tok.text] if a.kind == "str" else [])
+                for r in raws:
+                    loaded.add(rsieve.decode_string(r))
+            return
+        ext = rsieve.EXT_OF_COMMAND.get(c.name)
+        if ext and ext.encode() not in loaded:
+            bad.append((c.name, ext))
+        for a in c.args:
+            if a.kind == "tag":
+                t = a.tok.text.decode("ascii", "replace").lower()
+                e = rsieve.EXT_OF_TAG.get(t)
+                if e and e.encode() not in loaded:
+                    bad.append(("%s %s" % (c.name, t), e))
+        for t in c.tests:
+            node(t, depth + 1)
+        for ch in c.block or []:
+            node(ch, depth + 1)
+
+    try:
+        for c in tree:
+            node(c)
+    except RecursionError:
+        return None
+    return bad
+
+
 PRELOAD = {"n": 0}
 
 
@@ -120,7 +169,8 @@ def check_accept(label, data, info, res: Result):
         # parse: what was loaded outside this script gates nothing in it
         if lab.complete_require_by_hand():
             res.count("parses-after-extensions-were-registered-by-hand")
-    o = lab.parse(data)
+    as_text = info.get("as_str")
+    o = lab.parse(as_text if as_text is not None else data)
     if o.verdict() is not True:
         res.case(data, nontrivial=False)
         return
@@ -128,6 +178,13 @@ def check_accept(label, data, info, res: Result):
         bad, n = walk(o.result)
     except RecursionError:
         return
+    if not bad and (label in ("lookalike", "replay", "long") or PRELOAD["n"] % 4 == 1):
+        # second opinion from the source octets (the tree could have been made to agree
+        # with the verdict, e.g. by text that was altered before it was lexed)
+        sb = source_walk(data)
+        res.count("source-walks")
+        if sb:
+            bad = sb
     res.count("accepted")
     res.count("constructs-checked", n)
     res.case(data, nontrivial=n > 0)
@@ -262,6 +319,18 @@ def run_lookalike(shard, res):
                 res.count("lookalike-cases")
                 res.observe("lookalike:extension", e)
                 check_accept("lookalike", data, {"toks": toks}, res)
+        # the script as a str holding a lone surrogate inside the capability name (text
+        # read with errors="surrogateescape"): whatever parse(str) does with it, it must not
+        # accept the body on the strength of a name the script does not contain
+        for sur in ("\udcff", "\ud800", "\udfff"):
+            k = rng.randrange(len(e) + 1)
+            look = e[:k] + sur + e[k:]
+            text = 'require ["%s"%s];\n' % (look, "".join(', "%s"' % x for x in others)) \
+                + gen.join_tokens(body).decode("utf-8", "surrogatepass")
+            data = text.encode("utf-8", "surrogatepass")
+            res.count("lookalike-cases")
+            res.count("lookalike-str-with-lone-surrogate")
+            check_accept("lookalike", data, {"as_str": text}, res)
 
 
 def run_shard(tier, shard, res: Result):
